@@ -575,6 +575,11 @@ pub fn respell_path(rng: &mut Rng, p: &str) -> String {
             out.push(s.to_string());
         } else {
             out.push(respell_component(rng, s, true));
+            // step out of the segment and back into it
+            if rng.chance(1, 8) {
+                out.push("..".into());
+                out.push(s.to_string());
+            }
         }
         let _ = i;
     }
